@@ -30,6 +30,10 @@ instructions with operations of length {3,12,23,24,40}, end comment).  Families:
   U  #LIST bullets: the writer's bullet property {not set, '', '+', '--', '-->'} x the list's bullet parameter
      {not given, '+', '--', '-->'} x every item length 1..2*(width-2)+1 x line width {40,79,120} x 2 of the 7
      block positions, rotating with the length (thorough: all 7, and 2 word styles)       (asm; html for the parameter)
+  F  wrap flags of blocks in control-file comments: {#LIST, #TABLE (long cell in the last / in the first column),
+     #UDGTABLE} x flag {none, <nowrap>, <wrapalign>} x every row / item text length 1..4*(width-2)+1 (more than four
+     full-width lines) x line width {40,79,120} x 1 of the 4 positions D / N (start, mid-block) / E, rotating with the
+     length (thorough: all 4, and 2 word styles)   (ctl; asm and html at lengths {1,30,110}: the flag must be ignored)
   N  line widths 31 and 24 (narrower than the longest word, so that one unbreakable word
      cannot fit in any comment position)                                (asm)
   H  a smaller length sweep for the entry pages                         (html)
@@ -292,6 +296,43 @@ def bullet_positions(length, npos):
     return [BLOCK_POS[(length + k * step) % n] for k in range(npos)] if npos < n else list(BLOCK_POS)
 
 
+# ---- family F: wrap flags of #LIST / #TABLE / #UDGTABLE blocks x row / item length
+BLOCK_FLAGS = (None, 'nowrap', 'wrapalign')
+FLAG_KINDS = ('L', 'T', 'Tf', 'G')      # list; table, long cell in the last column; table, long cell first; UDGTABLE (ctl only)
+FLAG_POS = ('desc', 'start', 'mid', 'end')      # the comments sna2skool wraps block by block (D, N, E directives)
+
+
+def flag_block(kind, length, style, flag, salt):
+    text = tuple(M.sentence(length, style, salt))
+    if kind == 'L':
+        return ('L', (text, ('a', 'bb')), None, flag)
+    if kind == 'Tf':
+        return ('T', 0, ((('a',), ('bb',)), (text, ('bb', 'a', 'w;x')), (('bb',), ('a',))), flag, False)
+    rows = ((('a',), ('bb',), ('a',)), (('a',), ('bb',)) + (text,), (('bb',), ('a',), ('bb',)))
+    return ('T', 1, rows, flag, kind == 'G')
+
+
+def entry_flag(kind, length, style, flag, pos, salt):
+    tag = {'block': kind, 'L': length, 'style': style, 'flag': flag}
+    return entry_with_block(flag_block(kind, length, style, flag, salt), tag, BLOCK_CTX[length % 4], pos, salt)
+
+
+def flag_positions(length, npos):
+    n = len(FLAG_POS)
+    return [FLAG_POS[(length + k) % n] for k in range(npos)] if npos < n else list(FLAG_POS)
+
+
+def flagged_row_lines(e, line_width):
+    """Generator-side estimate: (flag, number of lines the longest row / item of the entry's block needs at the full
+    comment width, length of that row)."""
+    for para in e.desc + [p for g in e.groups for p in g.mid] + e.end:
+        for tok in para:
+            if M.is_block(tok):
+                rows = M.block_rows(tok)
+                return M.block_flag(tok), max(len(M.greedy_wrap(r, line_width - 2)) for r in rows), max(M.text_len(r) for r in rows)
+    return None
+
+
 # ---- family P: register sections with every kind of prefix
 # "If a register's prefix begins with the letter 'O', it is regarded as an output value; if it begins with any other
 # letter, it is regarded as an input value. If a register has no prefix, it will be placed in the same table as the
@@ -378,6 +419,13 @@ def doc_entries(key, seed, seam, stats=None):
             for param in BULLET_PARAMS:
                 for pos in bullet_positions(length + seed, key['npos']):
                     ents.append(entry_bullet(key['style'], length, param, pos, salt))
+    elif fam == 'F':
+        kinds = FLAG_KINDS if seam == 'ctl' else FLAG_KINDS[:3]
+        for length in (key['lengths'] if 'lengths' in key else range(key['lo'], key['hi'])):
+            for kind in kinds:
+                for flag in BLOCK_FLAGS:
+                    for pos in flag_positions(length + seed, key['npos']):
+                        ents.append(entry_flag(kind, length, key['style'], flag, pos, salt))
     elif fam == 'P':
         for seq in prefix_sections(key['k']):
             for form in ('plain', 'delim'):
@@ -622,10 +670,6 @@ def check_asm(ents, cfg, res, counters=None):
     return probs
 
 
-def _plain(tokens):
-    return [t for t in tokens if isinstance(t, str)]
-
-
 def check_ctl(ents, cfg, res, counters=None):
     probs = []
     if counters is None:
@@ -643,9 +687,9 @@ def check_ctl(ents, cfg, res, counters=None):
         probs.append(Prob(None, 'output', 'entries', '{} entries in the skool file, {} in the control file'.format(len(out_entries), len(ents))))
         return probs
     for ei, (e, o) in enumerate(zip(ents, out_entries)):
-        _cmp_tokens(probs, ei, 'title', _plain(e.title), o.title)
-        if [_plain(p) for p in e.desc] != o.desc:
-            probs.append(Prob(ei, 'desc', 'words', 'expected paragraphs {!r} got {!r}'.format([_short(_plain(p)) for p in e.desc], [_short(p) for p in o.desc])))
+        _cmp_tokens(probs, ei, 'title', M.source_words(e.title), o.title)
+        if [M.source_words(p) for p in e.desc] != o.desc:
+            probs.append(Prob(ei, 'desc', 'words', 'expected paragraphs {!r} got {!r}'.format([_short(M.source_words(p)) for p in e.desc], [_short(p) for p in o.desc])))
         wr = []
         for r in e.regs:
             a, b = _reg_tokens(r, 'plain')
@@ -655,15 +699,15 @@ def check_ctl(ents, cfg, res, counters=None):
             wr.append(a + b)
         if wr != o.regs:
             probs.append(Prob(ei, 'regs', 'words', 'expected registers {!r} got {!r}'.format([_short(x) for x in wr], [_short(x) for x in o.regs])))
-        if [_plain(p) for p in e.groups[0].mid] != o.start:
+        if [M.source_words(p) for p in e.groups[0].mid] != o.start:
             probs.append(Prob(ei, 'start', 'words', 'expected start comment {!r} got {!r}'.format(
-                [_short(_plain(p)) for p in e.groups[0].mid], [_short(p) for p in o.start])))
+                [_short(M.source_words(p)) for p in e.groups[0].mid], [_short(p) for p in o.start])))
         want = []
         for gi, g in enumerate(e.groups):
             if gi and g.mid:
-                want.append(('mid', [_plain(p) for p in g.mid]))
+                want.append(('mid', [M.source_words(p) for p in g.mid]))
             members = [(a, op) for a, (op, d, c) in zip(g.addrs, g.ops)]
-            words = _plain(g.comment)
+            words = M.source_words(g.comment)
             if not words and len(members) > 1:
                 # no text on the C/M directive: no comment is declared, nothing groups the instructions
                 for m in members:
@@ -683,14 +727,21 @@ def check_ctl(ents, cfg, res, counters=None):
             if w and g_ and w[0] == g_[0] == 'group' and w[1] != g_[1]:
                 kind = 'attachment'
             probs.append(Prob(ei, 'body[{}]'.format(k), kind, 'expected {!r} got {!r}'.format(_item_short(w), _item_short(g_))))
-        if [_plain(p) for p in e.end] != o.end:
-            probs.append(Prob(ei, 'end', 'words', 'expected end comment {!r} got {!r}'.format([_short(_plain(p)) for p in e.end], [_short(p) for p in o.end])))
+        if [M.source_words(p) for p in e.end] != o.end:
+            probs.append(Prob(ei, 'end', 'words', 'expected end comment {!r} got {!r}'.format([_short(M.source_words(p)) for p in e.end], [_short(p) for p in o.end])))
         # ---- line width
         opw = max([iw] + [ol for g in e.groups for ol in g.oplens])
         limit2 = 7 + opw + 3 + cwmin
+        nowrap = set()
+        for ann in [e.title] + e.desc + e.end + [p for g in e.groups for p in g.mid]:
+            nowrap |= M.nowrap_rows(ann)
         for line in o.lines:
             n = len(line)
             if n <= W or line.startswith('@'):
+                continue
+            if line.startswith(';') and line[1:].strip() in nowrap:
+                # "nowrap - write each list item / table row on a single line"
+                counters['ctl_overlong_nowrap_row'] = counters.get('ctl_overlong_nowrap_row', 0) + 1
                 continue
             if line.startswith(';'):
                 toks = line[1:].split()
@@ -887,6 +938,18 @@ def work_list(tier, seed):
                     work.append(('asm', key, cfg))
     for lo in range(1, 113 if quick else 241, 16):
         work.append(('html', {'fam': 'U', 'style': 'dense', 'lo': lo, 'hi': lo + 16, 'npos': 1 if quick else 7}, {}))
+    # F: wrap flags of blocks x row / item length up to four full-width lines (ctl); the flags are no concern of skool2asm / skool2html
+    for w in WIDTHS3:
+        top = 4 * (w - 2) + 2
+        for style in (('dense',) if quick else ('dense', 'mixed')):
+            for lo in range(1, top, 4):
+                key = {'fam': 'F', 'style': style, 'lo': lo, 'hi': min(lo + 4, top), 'npos': 1 if quick else 4}
+                work.append(('ctl', key, dict(CTL_DEFAULT, line_width=w)))
+    fkey = {'fam': 'F', 'style': 'dense', 'lengths': [1, 30, 110], 'npos': 4}
+    for key in chunked(fkey, seed, 'asm'):
+        for w in WIDTHS3:
+            work.append(('asm', key, dict(ASM_DEFAULT, line_width=w)))
+        work.append(('html', key, {}))
     # L: length sweep
     mod = 6 if quick else 2
     for w in WIDTHS3:
@@ -927,7 +990,7 @@ def _pos_name(pos):
 def _tags(seam, cfg, e, p):
     t = {'seam': seam, 'kind': p.kind, 'position': _pos_name(p.pos), 'line_width': cfg.get('line_width')}
     if e is not None:
-        for k in ('style', 'L', 'layout', 'n', 'block', 'pos', 'ctx', 'brace_text', 'brace_form', 'bullet', 'prefixes', 'form'):
+        for k in ('style', 'L', 'layout', 'n', 'block', 'pos', 'ctx', 'brace_text', 'brace_form', 'bullet', 'prefixes', 'form', 'flag'):
             if k in e.tag:
                 t[k] = e.tag[k]
     for k, v in cfg.items():
@@ -959,6 +1022,12 @@ def _shard(shard, nshards, tier, seed):
                 stats.counters['list_bullet_from_' + ('parameter' if e.tag['bullet'] is not None else 'property' if 'bullet' in cfg else 'default')] += 1
                 if e.tag['L'] + len(b) + 1 > cfg['line_width'] - 2:
                     stats.counters['list_item_longer_than_line_bullet_of_%d_characters' % len(b)] += 1
+            if key['fam'] == 'F' and seam == 'ctl':
+                flag, nl, rl = flagged_row_lines(e, cfg['line_width'])
+                stats.counters['ctl_block_%s_row_of_%s_full_width_lines' % (flag or 'default', nl if nl < 4 else '4_or_more')] += 1
+                stats.counters['ctl_block_kind_' + e.tag['block']] += 1
+                if flag == 'nowrap' and rl > cfg['line_width'] - 2:
+                    stats.counters['ctl_nowrap_row_longer_than_line'] += 1
             if key['fam'] == 'P':
                 cur = ''
                 for pfx in e.tag['prefixes']:
@@ -1053,6 +1122,9 @@ def run(tier, seed):
               'register without a prefix), x plain/delimited register names (asm x 3 widths; ctl x 3 widths; html). '
               'U: bullet property {} x #LIST bullet parameter {} x every item length 1..2*(width-2)+1 x line width {{40,79,120}} x {} of the 7 block '
               'positions (rotating with the length) x word styles {} (asm; html: parameter x item lengths 1..{} x {} position(s)). '
+              'F: block kinds {} x wrap flag {} x every row/item text length 1..4*(width-2)+1 x line width {{40,79,120}} x {} of the 4 positions '
+              'desc/start/mid/end (rotating with the length) x word styles {} (ctl; asm x 3 widths and html at lengths [1, 30, 110] x 4 positions, '
+              'without UDGTABLE). '
               'N: 12 entries x line width {{31,24}} (asm). H: 3 styles x sentence lengths 0..{} x one in {} shapes, rotating (html).'.format(
                   3 * len(W_LENGTHS) * (4 if quick else 12), list(W_LENGTHS), 4 if quick else 12,
                   'every 6th (rotating with the length)' if quick else 'every 2nd (rotating with the length)', len(SHAPES),
@@ -1060,6 +1132,7 @@ def run(tier, seed):
                   6 if quick else 10,
                   3 if quick else 4, list(PREFIX_ALPHABET), list(BULLET_PROPS), list(BULLET_PARAMS), 2 if quick else 7,
                   ['dense'] if quick else ['dense', 'mixed'], 112 if quick else 240, 1 if quick else 7,
+                  list(FLAG_KINDS), list(BLOCK_FLAGS), 1 if quick else 4, ['dense'] if quick else ['dense', 'mixed'],
                   159 if quick else 239, 12 if quick else 3),
         assumptions=[
             'brace rules ("Braces in comments"): the skool source written for skool2asm/skool2html wraps a group comment exactly as sna2skool does '
@@ -1079,7 +1152,13 @@ def run(tier, seed):
             'ASM tables are compared per column: the words of the cells that start in a column, in row order, against the text found between '
             'that column\'s border characters (a cell with a rowspan occupies its column in all the rows it spans, so this is a per-cell comparison '
             'for it); HTML tables per cell',
-            '#LIST/#TABLE blocks are generated for skool2asm / skool2html only',
+            '#LIST/#TABLE blocks are generated for skool2asm / skool2html in families K, R and U; in control files (family F) they appear in '
+            'single-line D, N and E comments only (the comments sna2skool writes block by block; not in titles, register descriptions or '
+            'instruction comments), and the expected skool text is the white-space-split source text of the comment, markup included '
+            '("#TABLE<wrapalign>", "{", "|", "}", "TABLE#")',
+            'wrap flags: "nowrap - write each list item / table row on a single line": a line that is exactly one complete row / item of a '
+            '<nowrap> block is exempt from the line-width rule (guard ctl_overlong_nowrap_row); rows of blocks with no flag or <wrapalign> must '
+            'fit the line width unless a line holds a single unbreakable word; skool2asm / skool2html must render a flagged block like an unflagged one',
             'the bullet of a list in ASM mode is its bullet parameter if given, else the bullet property (set with -P bullet=..., default "*"); '
             'an empty bullet (property only: an empty bullet *parameter* is not enumerated) means the items carry no prefix; the bullet is a fixed '
             'prefix of a list item line (like a register name), so a line made of the bullet and one unbreakable word is excusable, but a bullet of '
@@ -1094,6 +1173,9 @@ def run(tier, seed):
                          'group_comment_with_braces', 'brace_text_needs_extra_opening_braces', 'fam_W_asm', 'fam_W_ctl', 'fam_L_asm', 'fam_L_ctl',
                          'asm_word_longer_than_comment_field', 'ctl_word_longer_than_comment_field', 'asm_operation_wider_than_line',
                          'asm_comment_ends_with_brace_in_group', 'ctl_comment_ends_with_brace_in_group', 'html_group_gt1', 'html_block_in_comment',
+                         'fam_F_ctl', 'fam_F_asm', 'fam_F_html', 'ctl_block_kind_L', 'ctl_block_kind_T', 'ctl_block_kind_Tf', 'ctl_block_kind_G',
+                         'ctl_nowrap_row_longer_than_line', 'ctl_overlong_nowrap_row'] + [
+                             'ctl_block_%s_row_of_%s_full_width_lines' % (f, n) for f in ('default', 'nowrap', 'wrapalign') for n in (1, 2, 3, '4_or_more')] + [
                          'fam_P_asm', 'fam_P_ctl', 'fam_P_html', 'fam_U_asm', 'fam_U_html',
                          'html_register_prefix_other_letter', 'html_register_without_prefix_after_other_letter', 'html_register_prefix_output',
                          'asm_register_prefix_other_letter', 'ctl_register_prefix_other_letter',
